@@ -504,9 +504,12 @@ class EndpointResponseHandlerGenerator:
             writer.write_line("case _:  # Default response")
             writer.indent()
             if default_response.content and strategy.return_type != "None":
+                # The default response only stands in for a success body when the status is a success
+                writer.write_line("if 200 <= response.status_code < 300:")
+                writer.indent()
                 self._write_strategy_based_return(writer, strategy, context)
-            else:
-                self._write_range_aware_raise(writer, context, "Default error")
+                writer.dedent()
+            self._write_range_aware_raise(writer, context, "Default error")
             writer.dedent()
         else:
             # Final catch-all
